@@ -19,7 +19,7 @@ theorem total_prim (o : TraceOpts) (p : Prim) (n : Bool) (md : Metadata) :
     total (primDT o p) n md = true ∧ defOK (primDT o p) md = true := by
   cases p with
   | int t => cases t <;> simp [primDT, intDT, total, defOK]
-  | str => simp only [primDT, strDT]; split <;> (try split) <;> simp [total, defOK]
+  | str | strRef | cowStr => simp only [primDT, strDT]; split <;> (try split) <;> simp [total, defOK]
   | _ => simp [primDT, total, defOK]
 
 mutual
@@ -170,7 +170,7 @@ theorem newDT_prim (o : TraceOpts) (p : Prim) (path : String) (nl : Bool) (md : 
     ∃ b, newDT path (primDT o p) nl md = .ok b ∧ FullRoom b := by
   cases p with
   | int t => cases t <;> exact ⟨_, rfl, rfl, rfl⟩
-  | str =>
+  | str | strRef | cowStr =>
     simp only [primDT, strDT]
     by_cases hd : o.stringDictionaryEncoding = true <;> by_cases hl : o.stringsAsLargeUtf8 = true <;>
       simp only [hd, hl, if_true, if_false, Bool.false_eq_true]
